@@ -25,7 +25,8 @@ def boxes(c):
 
     from odc.geo.geobox import GeoBox
 
-    src = GeoBox((c["hs"], c["ws"]), Affine(D, 0, 0, 0, D, 0), CRS)
+    den = c.get("den", D)
+    src = GeoBox((c["hs"], c["ws"]), Affine(den, 0, 0, 0, den, 0), CRS)
     A = c["A"]
     dst = GeoBox((c["hd"], c["wd"]), Affine(*[float(v) for v in A]), CRS)   # D * (A / D)
     return src, dst
